@@ -57,9 +57,9 @@ ARMED: List[Armed] = [
     Armed(C, "simplify_cir", "e", "CIR", "expr", "translator", props=("C02",)),
     Armed(MA, "MemoryAnalysis.mem_s", "s", "LoopIR", "stmt", "translator", props=("C08", "C15")),
     Armed(MA, "MemoryAnalysis.mem_stmts.used_s", "s", "LoopIR", "stmt", "visitor",
-          {"Pass": "uses no buffer", "Free": "not yet inserted when liveness is computed"}, props=("C08",)),
+          {"Pass": "uses no buffer", "Free": "not yet inserted when liveness is computed"}, props=("C08", "C02")),
     Armed(MA, "MemoryAnalysis.mem_stmts.used_e", "e", "LoopIR", "expr", "visitor",
-          {"Const": "uses no buffer", "ReadConfig": "reads configuration state, not a buffer"}, props=("C08",)),
+          {"Const": "uses no buffer", "ReadConfig": "reads configuration state, not a buffer"}, props=("C08", "C02")),
     Armed(PA, "PrecisionAnalysis.coerce_e", "e", "LoopIR", "expr", "translator", props=("C02", "C15")),
     # ---- printer (C17)
     Armed(P, "_print_stmt", "stmt", "LoopIR", "stmt", "translator", props=("C17",)),
